@@ -573,8 +573,21 @@ impl Shape {
                             return other.clone();
                         }
                     }
+                    // Mark this (constraint, shape) pair as in progress. Coming
+                    // back to it without having consumed any structure means an
+                    // arm refers straight back to the constraint
+                    // (`constraint x = 1 | x;`); that arm admits nothing new.
+                    let slot = seen.len();
+                    seen.push((
+                        cref.val.clone(),
+                        other.clone(),
+                        Shape::TypeErr(
+                            cref.pos.clone(),
+                            format!("Constraint '{}' refers back to itself here", cref.val),
+                        ),
+                    ));
                     let result = other.narrow_cached(&expanded, symbol_table, seen);
-                    seen.push((cref.val.clone(), other.clone(), result.clone()));
+                    seen[slot].2 = result.clone();
                     result
                 } else {
                     Shape::TypeErr(
